@@ -225,9 +225,6 @@ func (s *sim) mkClaim(n *NodeSpec) (*v1.NodeClaim, func(*v1.NodeClaim)) {
 		if n.InstanceTerminating {
 			setCond(v1.ConditionTypeInstanceTerminating, s.sc.T0-1)
 		}
-		if n.LastPodEvent >= 0 {
-			c.Status.LastPodEventTime = mtime(n.LastPodEvent)
-		}
 	}
 	return nc, st
 }
@@ -447,12 +444,21 @@ func (s *sim) build() error {
 			w.EnvCreate(nc)
 			w.EnvMutate(nc, "ClaimStatus", func() { st(nc) })
 		}
-		if !n.Managed || n.Stage != "launched" {
+		if !n.Managed || (n.Stage != "launched" && !n.NodeGone) {
 			w.EnvCreate(s.mkNode(n))
 		}
 		if n.NominatedAt >= 0 {
 			nn := n
 			timeline = append(timeline, timed{n.NominatedAt, func() { s.nominate(nn) }})
+		}
+		if n.LastPodEvent >= 0 && n.Managed {
+			// stamped at its own instant (a stamp from the future would confuse the controllers that run before T0)
+			nn := n
+			timeline = append(timeline, timed{n.LastPodEvent, func() {
+				nc := &v1.NodeClaim{ObjectMeta: metav1.ObjectMeta{Name: claimName(nn)}}
+				w.EnvMutate(nc, "SetLastPodEvent", func() { nc.Status.LastPodEventTime = mtime(nn.LastPodEvent) })
+				s.deliver("NodeClaim", claimName(nn), "")
+			}})
 		}
 		if n.Drifted && n.DriftedAt >= 0 && n.Managed {
 			nn := n
@@ -494,6 +500,7 @@ func (s *sim) build() error {
 			}})
 		}
 	}
+	s.snapshot("built")
 	sort.SliceStable(timeline, func(i, j int) bool { return timeline[i].t < timeline[j].t })
 	for _, e := range timeline {
 		if e.t > sc.T0 {
@@ -503,6 +510,7 @@ func (s *sim) build() error {
 		e.fn()
 	}
 	w.Clock.SetTo(at(sc.T0))
+	s.snapshot("pre-ncdisruption")
 	// the real nodeclaim-disruption controller decides Drifted / Consolidatable at T0
 	for i := range sc.Nodes {
 		n := &sc.Nodes[i]
